@@ -5,10 +5,13 @@ import json
 
 from .. import core, realcode
 
-CELLS = [1, 0, 5, None, '#N/A', '#NULL!', '=1/0', 'abc', '#DIV/0!', 7, '#VALUE!', '#REF!', '#NAME?', '#NUM!', True, False, 'x']
+CELLS = [1, 0, 5, None, '#N/A', '#NULL!', '=1/0', 'abc', '#DIV/0!', 7, '#VALUE!', '#REF!', '#NAME?', '#NUM!', True, False, 'x',
+         # evaluations that fail with other exception classes (attribute, index, type) and texts that merely look like error values
+         '=DAY("n/a")', '=LEFT("")', '="a"+1', '#42', '#TODO', '#N/A ', '#n/a', 'N/A', '#']
 ENV = ['I1', 'I0', 'I5', 'B', core.enc('#N/A'), core.enc('#NULL!'), 'EZeroDivisionError', core.enc('abc'), core.enc('#DIV/0!'), 'I7',
-       core.enc('#VALUE!'), core.enc('#REF!'), core.enc('#NAME?'), core.enc('#NUM!'), 'T', 'F', core.enc('x')]
-NUM_CELLS, TXT_CELLS, ERR_CELLS, COND_CELLS = [0, 1, 2, 9], [7, 16], [4, 5, 6, 8, 10, 11, 12, 13], [0, 1, 3, 14, 15]
+       core.enc('#VALUE!'), core.enc('#REF!'), core.enc('#NAME?'), core.enc('#NUM!'), 'T', 'F', core.enc('x'),
+       'EAttributeError', 'EIndexError', 'ETypeError', core.enc('#42'), core.enc('#TODO'), core.enc('#N/A '), core.enc('#n/a'), core.enc('N/A'), core.enc('#')]
+NUM_CELLS, TXT_CELLS, ERR_CELLS, COND_CELLS = [0, 1, 2, 9], [7, 16, 20, 21, 22, 23, 24, 25], [4, 5, 6, 8, 10, 11, 12, 13, 17, 18, 19], [0, 1, 3, 14, 15]
 
 
 class Gen:
